@@ -173,6 +173,9 @@ def _addr_toy():
         st.builds(lambda b, o: b + o, st.sampled_from([0, 4095, 4096, 100]), st.integers(-5, 5)),
         window, window, window,
         st.integers(-5000, 9000),
+        # far outside: what would alias a valid cell if the address were reduced modulo 2^12, 2^16 or 2^32 (it is not)
+        st.builds(lambda k, m: k + m, st.one_of(st.sampled_from([0, 1, 100, 4094, 4095]), st.integers(0, 4095)),
+                  st.sampled_from([4096, -4096, 65536, -65536, 2 ** 32, -(2 ** 32), 65536 + 4096, 3 * 4096, 2 ** 31])),
     )
 
 
@@ -219,6 +222,8 @@ def strategy(kind, max_ops):
                          "w-alias": ra + draw(st.integers(0, rn - 1))}[what]
                     if what == "w-alias" and kind == "riscv":
                         a += draw(st.sampled_from([T, -T, 2 * T]))
+                    elif what == "w-alias":
+                        a += draw(st.sampled_from([4096, -4096, 65536, -65536, T, -T]))   # no wrap-around: must be rejected
                     v = draw(st.one_of(st.sampled_from([0, 1, 0xFF, 0xA5, 0xFFFF, 0x5AA5C33C, 2 ** 64 - 1]), st.integers(0, 2 ** 64 - 1)))
                     op = ["w", wn, a, v & ((1 << (wn * cb)) - 1)]
             else:
@@ -244,7 +249,7 @@ def corpus():
     ]
 
 
-WINDOWS = [("riscv", B), ("riscv", T - 2), ("riscv", -2), ("riscv", B + T + 6), ("toy", 4094), ("toy", 0)]
+WINDOWS = [("riscv", B), ("riscv", T - 2), ("riscv", -2), ("riscv", B + T + 6), ("toy", 4094), ("toy", 0), ("toy", 65536 + 4094)]
 
 
 def _alphabet(kind, base, reduced):
